@@ -1,5 +1,6 @@
 import Sucds.Proofs.SerialStruct
 import Sucds.Proofs.IoWrite
+import Sucds.Proofs.SerialStream
 /-! # C13 — truncated streams and failing I/O yield Err, never a panic or a bogus value
 
 * every strict prefix of the serialization of a well-formed value fails to decode — for every structure
@@ -54,4 +55,9 @@ theorem holds : Statement :=
    fun x k h hk => Good.strict_prefix_fails PS.codec_good x h k hk,
    fun bk x k h hk => Good.strict_prefix_fails (WM.codec_good bk) x h k hk,
    readExact_spec, writeAll_spec⟩
+/-- a stream of several values written back to back and cut anywhere strictly before its end cannot be read back
+    in full: one of the `deserialize_from` calls returns `Err` (the later values are never fabricated) -/
+theorem truncated_stream_fails {α} {c : Codec α} {v} (h : c.Good v) (xs : List α) (hx : ∀ x ∈ xs, v x)
+    (k : Nat) (hk : k < (putMany c xs).length) : getMany c xs.length ((putMany c xs).take k) = none :=
+  h.stream_truncated xs hx k hk
 end Sucds.C13
